@@ -116,6 +116,31 @@ Theorem C19_change_count_strict_refuted : exists c n, c < U16 /\ 0 < n /\ cc_aft
 Proof. exists 1, U16. split; [reflexivity|]. split; [reflexivity|]. apply cc_wraps. reflexivity. Qed.
 Print Assumptions C19_change_count_strict_refuted.
 
+(* The counter across lys_set_implemented(mod, features) (model set_impl_op: lys_set_features with its change flag,
+   _lys_set_implemented, lys_implement; under LY_CTX_EXPLICIT_COMPILE, so no compile events; module without augment /
+   deviation statements, one record per (name, revision)): a call that changes the context (the implemented flag or an
+   enabled feature of the module) is counted at least once, a call that changes nothing is not counted, never more
+   than one event; so the counter value differs exactly after the changing calls. *)
+Theorem C19_set_implemented_counted :
+  forall c k fs m c' n, NoDup (map key_of c) -> find_key k c = Some m -> y_deps m = [] ->
+    set_impl_op true true c k fs = Ok (c', n) ->
+    (c' <> c -> 1 <= n) /\ (c' = c -> n = 0) /\ n <= 1 /\
+    (forall cnt, cnt < U16 -> c' <> c -> cc_after cnt n <> cnt).
+Proof. exact set_implemented_counted. Qed.
+Print Assumptions C19_set_implemented_counted.
+
+(* regression of two seeded variants (the booleans of set_impl_op): with the disable arm of lys_set_features not
+   setting its change flag, switching g off is not counted (0 events, context changed); with lys_implement not
+   counting, making x implemented is not counted; the code counts 1 in both cases and 0 for a call that sets the
+   features already set *)
+Example C19_counter_seed_witnesses :
+  set_impl_op true true [cnt_m true true true] (e_x, None) (F_list [[102]]) = Ok ([cnt_m true true false], 1) /\
+  set_impl_op false true [cnt_m true true true] (e_x, None) (F_list [[102]]) = Ok ([cnt_m true true false], 0) /\
+  set_impl_op true true [cnt_m false false false] (e_x, None) F_keep = Ok ([cnt_m true false false], 1) /\
+  set_impl_op true false [cnt_m false false false] (e_x, None) F_keep = Ok ([cnt_m true false false], 0) /\
+  set_impl_op true true [cnt_m true true false] (e_x, None) (F_list [[102]]) = Ok ([cnt_m true true false], 0).
+Proof. exact counter_seed_witnesses. Qed.
+
 (* ---------------------------------- yang-library round trip ---------------------------------- *)
 
 (* The description tells the observable: reading the module and import-only-module entries back gives exactly
